@@ -137,10 +137,36 @@ let check which line =
      | _ -> failwith "check")
 
 (* ---- C03 end to end: "... mode=b|t n=<n|-> s=<s> threads=a,b,c" ---- *)
+(* decimal seconds "ip[.frac]" -> picoseconds through the model's exact [decimal_nanos] *)
+let picos_of_decimal s =
+  let ip, frac = match String.split_on_char '.' s with
+    | [a] -> a, ""
+    | [a; b] -> a, b
+    | _ -> failwith "decimal" in
+  if String.length frac > 9 then failwith "more than 9 fractional digits";
+  let digits = List.init (String.length frac) (fun i -> n_of_small (Char.code frac.[i] - 48)) in
+  N.mul (decimal_nanos (n_of_string (if ip = "" then "0" else ip)) digits) (n_of_small 1000)
+
 let e2e_cfg t =
   { c_test = (get t "mode" "b" = "t"); c_count = opt_n (get t "n" "-"); c_size = opt_n (get t "s" "-");
-    c_min = N0; c_max = (if get t "mx" "-" = "0" then N0 else u128_max); c_skip = false; c_freq = n_of_small 1; c_prec = n_of_small 1;
+    c_min = (match get t "mins" "-" with "-" -> N0 | x -> picos_of_decimal x);
+    c_max = (if get t "mx" "-" = "0" then N0 else match get t "maxs" "-" with "-" -> u128_max | x -> picos_of_decimal x);
+    c_skip = (get t "skipx" "0" = "1");
+    c_freq = (if get t "vcost" "-" = "-" then n_of_small 1 else n_of_string "1000000000000"); c_prec = n_of_small 1;
     c_oh = { oh_loop = N0; oh_alloc = N0; oh_dealloc = N0; oh_realloc = N0 }; c_input_counts = qconst false }
+
+(* the history of a run on the virtual clock: every call costs [vcost] ticks, nothing else does *)
+let e2e_hist t th rounds =
+  let s = (match opt_n (get t "s" "-") with Some s -> s | None -> n_of_small 1) in
+  match get t "vcost" "-" with
+  | "-" ->
+    let round = List.init th (fun _ -> { r_start = N0; r_end = n_of_small 1; r_alloc = ai_zero; r_ctotal = qconst N0 }) in
+    List.init rounds (fun _ -> round)
+  | c ->
+    let per = N.mul s (n_of_string c) in
+    List.init rounds (fun j ->
+        let st = N.mul per (n_of_small j) in
+        List.init th (fun _ -> { r_start = st; r_end = N.add st per; r_alloc = ai_zero; r_ctotal = qconst N0 }))
 
 let e2e_model line =
   let t = kv line in
@@ -149,8 +175,7 @@ let e2e_model line =
       let th = int_of_string ts in
       (* no time budget is set, so the timestamps do not matter: more rounds than can be needed *)
       let n = (match cfg.c_count with Some x -> int_of_n x | None -> 100) in
-      let round = List.init th (fun _ -> { r_start = N0; r_end = n_of_small 1; r_alloc = ai_zero; r_ctotal = qconst N0 }) in
-      let hist = List.init (n / th + 3) (fun _ -> round) in
+      let hist = e2e_hist t th (if get t "vcost" "-" = "-" then n / th + 3 else 400) in
       match bench_loop cfg N0 hist with
       | Panic e -> "t=" ^ ts ^ " panic " ^ string_of_panic e
       | Ok out ->
@@ -186,8 +211,62 @@ let e2e_check line =
         | _ -> Some ("t=" ^ ts ^ ":unreadable")) (List.combine want rows) in
     verdict (bad = []) ("C03:reported-samples/iters/calls-wrong-at-" ^ String.concat "," bad)
 
+(* C04, time limits parsed from the command line / environment, run on the virtual clock:
+   the rounds seen (calls / size) must be the least k of the rule for the exactly converted limits *)
+let cli_check line =
+  let (case, impl) = split_sb line in
+  let t = kv case in
+  let cfg = e2e_cfg t in
+  let s = match cfg.c_size with Some s -> int_of_n s | None -> failwith "size" in
+  let want = split_on ',' (get t "threads" "1") in
+  let rows = split_on ';' impl in
+  if List.length rows <> List.length want then verdict false ("rows:" ^ impl)
+  else
+    let bad = List.filter_map (fun (ts, row) ->
+        let r = kv row in
+        let th = int_of_string ts in
+        match (try Some (List.map int_of_n (list_n (get r "calls" ""))) with _ -> None) with
+        | Some (c0 :: rest) when get r "t" "?" = ts && s > 0 && c0 mod s = 0 && List.for_all (fun c -> c = c0) rest
+                                && List.length rest = th - 1 ->
+          let k = c0 / s in
+          let hist = e2e_hist t th k in
+          let seen = { o_done = true; o_sizes = List.init k (fun _ -> n_of_small s); o_calls = []; o_final_size = N0;
+                       o_samples = []; o_alloc_keys = []; o_counts = qconst []; o_stat_samples = N0; o_stat_iters = N0 } in
+          if c04_sb cfg N0 hist seen then None else Some ("t=" ^ ts)
+        | _ -> Some ("t=" ^ ts ^ ":unreadable")) (List.combine want rows) in
+    verdict (bad = []) ("C04:rounds-not-the-least-k-for-the-parsed-limits-at-" ^ String.concat "," bad)
+
+(* C04 on the OS timer: every call sleeps [sleepms]; at most ceil(max/sleep) rounds *)
+let os_params t =
+  let mx = (match get t "maxs" "-" with "-" -> u128_max | x -> picos_of_decimal x) in
+  let d = N.mul (n_of_string (get t "sleepms" "1")) (n_of_string "1000000000") in
+  (mx, d)
+
+let os_model line =
+  let t = kv line in
+  let (mx, d) = os_params t in
+  let rec bound r = if r < 100000 && c04_os_sb mx d (n_of_small (r + 1)) then bound (r + 1) else r in
+  String.concat ";" (List.map (fun ts -> Printf.sprintf "t=%s rounds<=%d" ts (bound 0)) (split_on ',' (get t "threads" "1")))
+
+let os_check line =
+  let (case, impl) = split_sb line in
+  let t = kv case in
+  let (mx, d) = os_params t in
+  let s = int_of_string (get t "s" "1") in
+  let rows = split_on ';' impl in
+  let bad = List.filter_map (fun row ->
+      let r = kv row in
+      match (try Some (List.map int_of_n (list_n (get r "calls" ""))) with _ -> None) with
+      | Some (c0 :: _) when c0 > 0 && c0 mod s = 0 && c04_os_sb mx d (n_of_small (c0 / s)) -> None
+      | _ -> Some ("t=" ^ get r "t" "?")) rows in
+  verdict (bad = [] && rows <> []) ("C04:more-rounds-than-the-ceiling-allows-at-" ^ String.concat "," bad)
+
 let dispatch mode line =
   match mode with
+  | "c04cli" -> e2e_model line
+  | "c04cli.sb" -> cli_check line
+  | "c04os" -> os_model line
+  | "c04os.sb" -> os_check line
   | "c03" | "c04" | "c19" | "loop" -> model line
   | "c03e2e" -> e2e_model line
   | "c03e2e.sb" -> e2e_check line
